@@ -1040,6 +1040,11 @@ impl<'a> Lifter<'a> {
                 self.stmts_with_cont(&b.block.stmts, Some(&k))
             }
             Expr::Tuple(t) if t.elems.is_empty() => self.rest(rest, cont),
+            Expr::Try(_) => {
+                // `e?;` — only the error propagation matters (hoisted match), the value is dropped
+                let _ = self.expr(e)?;
+                self.rest(rest, cont)
+            }
             _ => unsupported("statement", e),
         }
     }
